@@ -116,7 +116,7 @@ pub fn c03(cfg: &Cfg) -> i32 {
             assumptions: vec!["reference canonical sizes computed from truth tables in the harness (model.rs)".into()],
             inner_cap: 1 << 14,
         },
-        |_, _, _| {},
+        crate::c05x::add_jobs_c03,
     )
 }
 
